@@ -465,6 +465,14 @@ func runReq(e *ReqEdge, pkg *reg.Pkg, x *conc.Ctx, mode string, res *rep.Result)
 		res.Violate(prop, reqSig(prop, "rejected", e, pkg, x, mode), fmt.Sprintf("%s returned an error on a valid input %s: %v", mode, desc, callErr), rc)
 		return
 	}
+	// an empty leaf-list holds no data: present-but-empty and absent are the same observation
+	for _, t := range []*abs.Tree{got, exp} {
+		for k, v := range t.LL {
+			if len(v) == 0 {
+				delete(t.LL, k)
+			}
+		}
+	}
 	if d := abs.Diff(got, exp, false); len(d) > 0 {
 		res.Violate(prop, reqSig(prop, "result", e, pkg, x, mode), fmt.Sprintf("after %s %s the tree differs from the reference semantics: %s", mode, desc, strings.Join(d, "; ")), rc)
 		return
